@@ -159,7 +159,8 @@ func RunGenerateIDWaits(nodeID int64, back bool) vx.Out {
 }
 
 // RunGuidRace: concurrent publishers on one topic through the real publish paths; every
-// interleaving (E1). paths: pub (TCP PUB), hpub (HTTP), mpub (TCP MPUB x2), gen (GenerateID x2).
+// interleaving (E1). paths: pub (TCP PUB), hpub (HTTP), mpub (TCP MPUB x2), gen (GenerateID x2),
+// gen1 (GenerateID once), tick (the clock jumps three id ticks, as one explorable transition).
 func RunGuidRace(paths []string) vx.Out {
 	w, err := NewWorld(FreshDir(), WOpts{MemQ: 20, NoLoops: true})
 	if err != nil {
@@ -194,6 +195,11 @@ func RunGuidRace(paths []string) vx.Out {
 				w.Do("POST", "/pub?topic=t", []byte(fmt.Sprintf("b%d", i)))
 			case "gen":
 				gen[i] = append(gen[i], t.GenerateID(), t.GenerateID())
+			case "gen1":
+				gen[i] = append(gen[i], t.GenerateID())
+			case "tick":
+				// three id-clock ticks pass at some point between the publishers' steps
+				vrt.Jump(3 << 20)
 			}
 			wg.Done()
 		})
@@ -222,7 +228,7 @@ func RunGuidRace(paths []string) vx.Out {
 			want++
 		case "mpub":
 			want += 2
-		case "gen":
+		case "gen", "gen1":
 			for k, id := range gen[i] {
 				ids = append(ids, string(id[:]))
 				if k > 0 && string(gen[i][k][:]) <= string(gen[i][k-1][:]) {
